@@ -184,6 +184,12 @@ pub fn generate(family: &str, seed: u64, tier: &str) -> Vec<String> {
                         let exts: Vec<bool> = (0..nch).map(|_| r.chance(1, 4)).collect();
                         sc["body"] = json!({"kind":"chunked","chunks":chunks,"ext":exts,"upper":r.chance(1,2),"lz":if r.chance(1,4) {r.range(1,5)} else {0},
                             "lastext": r.chance(1,8)});
+                        if r.chance(1, 4) {
+                            // a Content-Length next to chunked Transfer-Encoding must be ignored
+                            let v = *r.pick(&[0usize, 1, plen, plen + 7, 1 << 20]);
+                            sc["body"]["cl"] = json!([v.to_string()]);
+                            sc["body"]["te"] = json!([*r.pick(&["chunked", "Chunked", "CHUNKED", "identity, chunked"])]);
+                        }
                     }
                     _ => {
                         plen = if r.chance(1, 2) { *r.pick(&interesting) } else { r.range(0, 300_000) };
